@@ -46,7 +46,6 @@ VARIABLES st, epc, nAtEpochStart
 vars == <<st, epc, nAtEpochStart>>
 
 Inc == 1            \* EFFECTIVE_BALANCE_INCREMENT in model units
-EffValues == {0, 1, 2}
 NoSync == <<"nosync">>
 
 ---------------------------------------------------------------------------
@@ -119,7 +118,7 @@ StaysAlive == Len(ActiveIndices(st.vals, ActivationExitEpoch(st.epoch))) > 1   \
 Exit(i) == /\ IsActive(st.vals[i], st.epoch) /\ st.vals[i].x = FAR /\ StaysAlive
            /\ st' = [st EXCEPT !.vals[i] = InitiateExit(@)]
            /\ UNCHANGED <<epc, nAtEpochStart>>
-Slash(i) == /\ IsActive(st.vals[i], st.epoch) /\ st.vals[i].s = 0 /\ StaysAlive
+Slash(i) == /\ IsActive(st.vals[i], st.epoch) /\ StaysAlive /\ \A j \in 1..N : st.vals[j].s = 0   \* at most one slashing per history
             /\ st' = [st EXCEPT !.vals[i] = [InitiateExit(@) EXCEPT !.s = 1]]
             /\ UNCHANGED <<epc, nAtEpochStart>>
 
@@ -136,18 +135,25 @@ Deposit == /\ N < NV
 ---------------------------------------------------------------------------
 (* the epoch boundary inside ProcessSlots: process_epoch; slot += 1; RotateEpochs; UpgradeMaybe *)
 
-\* process_epoch, nondeterministic: at most one activation, one ejection, one effective-balance update
+\* process_epoch, nondeterministic: at most one registry change (an activation of a deposited validator or
+\* an effective-balance update) per boundary - several boundaries give the combinations. Ejections in
+\* process_epoch initiate an exit with the same exit epoch as Exit(i) taken right before the boundary, so
+\* they are covered by Exit. Sync committees: any pair of pubkeys of validators active in the new epoch
+\* whose first member is the first active validator (keeps the branching small).
 Committees(vals, ep) == LET act == ActiveIndices(vals, ep) IN
-    {<<vals[act[i] + 1].k, vals[act[j] + 1].k>> : i \in 1..Len(act), j \in 1..Len(act)}
+    {<<vals[act[1] + 1].k, vals[act[j] + 1].k>> : j \in 1..Len(act)}
 
-EpochProcessed(s, actv, ej, effi, effv, newSn) ==
+Changes(s) == {<<"none", 0, 0>>}
+              \cup {<<"activate", i, 0>> : i \in {j \in 1..Len(s.vals) : s.vals[j].a = FAR}}
+              \cup {<<"eff", i, v>> : i \in 1..Min(2, Len(s.vals)), v \in {1, 2}}
+
+EpochProcessed(s, ch, newSn) ==
     LET cur == s.epoch
-        v1 == [i \in 1..Len(s.vals) |->
+        v2 == [i \in 1..Len(s.vals) |->
                  LET v == s.vals[i] IN
-                 IF i = actv /\ v.a = FAR THEN [v EXCEPT !.a = ActivationExitEpoch(cur)]
-                 ELSE IF i = ej /\ IsActive(v, cur) /\ v.x = FAR THEN [v EXCEPT !.x = ActivationExitEpoch(cur)]
+                 IF ch[1] = "activate" /\ i = ch[2] THEN [v EXCEPT !.a = ActivationExitEpoch(cur)]
+                 ELSE IF ch[1] = "eff" /\ i = ch[2] THEN [v EXCEPT !.e = ch[3]]
                  ELSE v]
-        v2 == [i \in 1..Len(v1) |-> IF i = effi THEN [v1[i] EXCEPT !.e = effv] ELSE v1[i]]
         rotSync == s.fork # "phase0" /\ (cur + 1) % Period = 0
     IN [s EXCEPT !.epoch = cur + 1,
                  !.vals = v2,
@@ -182,18 +188,16 @@ Upgrade(c, s, newSc, newSn) ==
 
 EpochBoundary ==
     /\ st.epoch < MaxEpoch
-    /\ \E actv \in 0..N, ej \in 0..N, effi \in 0..N, effv \in EffValues :
-         /\ (effi = 0 => effv = 0)
-         /\ (ej # 0 => Len(ActiveIndices(st.vals, st.epoch + 1 + MaxLA)) > 1)   \* keep one validator alive
-         /\ LET nextActive == ActiveIndices(st.vals, st.epoch + 1)
-                cands == Committees(st.vals, st.epoch + 1)
+    /\ ActiveIndices(st.vals, st.epoch + 1) # <<>>
+    /\ \E ch \in Changes(st) :
+         /\ (ch[1] = "eff" => st.vals[ch[2]].e # ch[3])
+         /\ LET cands == Committees(st.vals, st.epoch + 1)
             IN \E newSn \in (IF st.fork # "phase0" /\ (st.epoch + 1) % Period = 0 THEN cands ELSE {<<>>}),
                   upSc \in (IF st.fork = "phase0" /\ st.epoch + 1 = AltairEpoch THEN cands ELSE {<<>>}) :
-                 LET s1 == EpochProcessed(st, actv, ej, effi, effv, newSn)
+                 LET s1 == EpochProcessed(st, ch, newSn)
                      c1 == Rotate(epc, st, s1)
                      up == Upgrade(c1, s1, upSc, upSc)
-                 IN /\ nextActive # <<>>
-                    /\ st' = up[1] /\ epc' = up[2]
+                 IN /\ st' = up[1] /\ epc' = up[2]
                     /\ nAtEpochStart' = Len(s1.vals)
 
 Next == \/ Reveal
